@@ -36,6 +36,7 @@ type FuncDeclInfo struct {
 }
 
 type Verifier struct {
+	fnIDs      map[string]int
 	pkgs       []*Pkg
 	pkgByTypes map[*types.Package]*Pkg
 	decls      map[string]*FuncDeclInfo
